@@ -127,10 +127,6 @@ Print Assumptions C04_sdd_canonical_const.
 
 (* consequently, for ALL results of ALL programs of the compressing builder: pointer-equal iff the
    same function (of the specification program) *)
-Lemma Forall2_nth {A B} (R : A -> B -> Prop) l1 l2 d1 d2 i :
-  Forall2 R l1 l2 -> i < length l1 -> R (nth i l1 d1) (nth i l2 d2).
-Proof. intros H. revert i. induction H; intros [|i] Hi; simpl in *; try lia; auto. apply IHForall2. lia. Qed.
-
 Theorem C04_eq_iff_equiv : forall t cache ops pool ic,
   NoDup (vleaves t) -> cache_sound t cache -> cache_nf cache -> Forall (op_wf t) ops ->
   run_m t true cache (S (vheight t)) ([], []) ops = Ok (pool, ic) ->
